@@ -180,7 +180,21 @@ class World:
             h.append(np.round(self.cc.read(t), 9).tobytes())
         return hash(b"".join(h))
 
-    def invariant(self):
+    def touch(self):
+        """Evaluate every compiled circuit once with and once without autograd (a user evaluating between updates)."""
+        for t in [0] + self.targets:
+            sc = self.pipe.circuits[t]
+            try:
+                self.cc.evaluate(sc, self.rows[t], self.nvars)
+                with torch.no_grad():
+                    self.cc.evaluate(sc, self.rows[t], self.nvars)
+            except Exception:  # noqa - reported by the invariant of the final state
+                pass
+
+    def invariant(self, no_grad=False):
+        if no_grad:
+            with torch.no_grad():
+                return [(m + " [evaluated under torch.no_grad()]", dict(s, mode="no_grad")) for m, s in self.invariant()]
         probs = []
         val = ref.with_cache(self.current_valuation())
         op_ids = {id(p) for p in self.operand.parameters()}
@@ -211,12 +225,14 @@ def replay_factory(case, seed):
         w = World(case, seed)
         problems = w.invariant()
         last_ev = None
+        w.touch()
         for i, ev in enumerate(hist):
             w.apply(ev)
             last_ev = ev
             if i < len(hist) - 1:
+                w.touch()  # "interleaved with evaluations": every intermediate state is evaluated as well
                 continue
-            problems = w.invariant()
+            problems = w.invariant() + w.invariant(no_grad=True)
         problems = [(m, dict(s, after=last_ev or "init")) for m, s in problems]
         return hist, w.key(), problems
 
